@@ -14,6 +14,16 @@
 //	overflows the stack cannot be stopped or survived inside the process; the
 //	parent attributes such a death to the input the worker had announced in a
 //	shared marker file, records the violation and restarts the worker behind it.
+//
+// Extension phases (files ext_*_test.go):
+// registry completeness scan (check error if a type with a decoder is unknown),
+// E cross-format agreement at limits (binary / JSON / stack item forms),
+// F structural mutants of the JSON form, G arrival paths of headers,
+// extensible payloads and notary requests plus the compression threshold;
+// ext_types_test.go adds the types that were not registered and values with
+// every count / length field on the var-int boundaries (phase A, size oracle).
+// Phase C additionally sends every value a binary decoder accepts through the
+// JSON form and compares its reported size with the length of its encoding.
 package c17
 
 import (
@@ -343,7 +353,14 @@ func (c *codec) evalInput(ic *inputCase) (string, bool, []finding) {
 			if o := ownerOf(detail); o != "" {
 				key += ":" + o
 			}
-		case oracle == "hash-differs" || oracle == "size-differs" || oracle == "size-differs-from-encoding":
+		case oracle == "size-differs-from-encoding":
+			// one key per decoder and class of site: substitutions of a seed byte, everything else
+			cl := "mutant"
+			if ic.kind == "subst" {
+				cl = "noncanonical-byte"
+			}
+			key = fmt.Sprintf("%s:%s:%s", cl, oracle, c.name)
+		case oracle == "hash-differs" || oracle == "size-differs":
 			key = fmt.Sprintf("%s:%s:%s", class, oracle, c.name)
 			if lb != "" {
 				key += ":" + lb
@@ -1110,9 +1127,18 @@ func TestCheck(t *testing.T) {
 	if th {
 		hangCPUSeconds = 60
 	}
+	// registry completeness: a serialisable type the check does not know is a
+	// CHECK ERROR, not a pass
+	scanProblems, scanInfo := checkRegistryComplete()
+	if len(scanProblems) > 0 {
+		for _, p := range scanProblems {
+			fmt.Println("CHECK-ERROR C17 registry incomplete:", p)
+		}
+		os.Exit(3)
+	}
 	reg := registry()
 	var evals, nontrivial vk.Counter
-	report := func(f finding) { r.Violation(f.Key, f) }
+	report := func(f finding) { violate(r, f.Key, f) }
 	// development aid: C17_PHASE=ext runs only the extension phases (E..H)
 	devPhase := os.Getenv("C17_PHASE")
 	if devPhase == "ext" {
@@ -1336,6 +1362,7 @@ func TestCheck(t *testing.T) {
 		"evaluations":                        int(evals.Get()) + pathEvals + int(cEvals) + dagEvals + ext.evals,
 		"distinct_nontrivial":                int(nontrivial.Get()) + pathNontrivial + len(distinct) + dagNontrivial + ext.nontrivial,
 		"extension_families":                 ext.info,
+		"registry_completeness_scan":         scanInfo,
 		"item_graphs":                        dagInfo,
 		"item_graph_evaluations":             dagEvals,
 		"rule":                               "a case is one oracle evaluation: a generated value through encode/decode/JSON/size/hash, one (content, arrival path) pair, one (item graph, limit or entry point) pair, or one byte string fed to one decoder; non-trivial = a generated value with a distinct non-empty encoding, a path case whose content decodes on at least two paths, an item graph in which some object is referenced more than once (compared with its un-shared copy under every limit), or a distinct byte string (per decoder) that the decoder ACCEPTS so that the re-encode/re-decode/hash/size oracle is evaluated (rejected strings only exercise the no-panic/allocation oracle)",
@@ -1364,6 +1391,10 @@ func TestCheck(t *testing.T) {
 		"each decoder input runs in an isolated worker process; a worker that dies or makes no progress for 45 CPU seconds on one input (typical decode: microseconds) is a violation attributed to that input; allocation is measured with runtime/metrics around the first decode of the input",
 		"consensus message types are unexported: their values are obtained by decoding hand-built wire forms through consensus.NewPayload(...).DecodeBinary, re-encoding goes through the message encoder",
 		"the oracle demands from a decoder only: error, or a value whose re-encoding decodes to an equal value with equal hash and size; limits are demanded only where an exported constant or a doc comment states them",
+		"cross-format agreement (phases E, F and the binary->JSON step of phase C): a value one decoder accepts is a value of the type, so every other wire form of the type must encode it and decode it back to an equal value with the same hash; strings that are not valid UTF-8, reserved attributes, interop/pointer/unserialisable stack entries are outside the domain of the JSON form; the protected and the plain-JSON item forms are lossy by design and only asked to accept what they produce",
+		"limit cases are built in memory at limit-1 / limit / limit+1 (encoders check no limits), with every constructor kind providing the depth or the count and every container (rule, signer, transaction, block) the decoding path; within the limits every form must accept",
+		"structural JSON mutants: the smallest and the longest JSON text of every distinct member-path shape of a codec's generated values (at most 6 / 24 shapes per codec), every node x every replacement of the stated mutation alphabet; the first two and the last element of every list",
+		"registry completeness: the repository source (vk.Repo()/pkg) is scanned for methods DecodeBinary, FromStackItem, UnmarshalJSON, FromBytes, DecodeBytes; every receiver type must be mapped to a codec or carry an exemption with a reason (client, wallet, compiler, RPC envelope packages are exempt as packages)",
 	})
 }
 
@@ -1418,8 +1449,12 @@ func replay(r *vk.Run) {
 		n = replayPath(r, f)
 	case f.Mode == "dag":
 		n = replayDag(r, f)
+	case f.Mode == "xfmt":
+		n = replayXfmt(r)
 	case f.Mode == "jsonmut":
 		n = replayJSONMut(r, f)
+	case f.Mode == "path2" || f.Mode == "threshold":
+		n = replayPath2(r, f)
 	case c == nil:
 		fmt.Println("replay: unknown codec", f.Codec)
 	case f.Mode == "value":
